@@ -4252,6 +4252,32 @@ let rec push_round sv eps = function
      in
      ((p2, (app mine more)), ((||) hung h2)))
 
+(** val push_rounds :
+    nat -> server -> (n * outcome list) list -> (server * (n * outcome list)
+    list) * ((n * str) * (lease * outcome)) list **)
+
+let rec push_rounds n0 sv eps =
+  match n0 with
+  | O -> ((sv, eps), [])
+  | S n' ->
+    let (p, _) =
+      push_round sv eps
+        (isort (fun a b ->
+          str_ltb (show_sub_name (fst a)) (show_sub_name (fst b))) sv.sv_reg)
+    in
+    let (p0, posts) = p in
+    let (sv1, eps1) = p0 in
+    let (p1, more) = push_rounds n' sv1 eps1 in (p1, (app posts more))
+
+(** val dedup_sorted : n list -> n list **)
+
+let rec dedup_sorted l = match l with
+| [] -> l
+| a :: r ->
+  (match r with
+   | [] -> l
+   | b :: _ -> if N.eqb a b then dedup_sorted r else a :: (dedup_sorted r))
+
 (** val sorted_registry : server -> (name * str) list **)
 
 let sorted_registry sv =
@@ -4411,12 +4437,23 @@ let rec run_lines sv seen acks bg eps = function
                                         false)), (String ((Ascii (false,
                                         false, false, false, true, false,
                                         true, false)), EmptyString)))))))) op
-                                   then let (p, _) =
-                                          push_round sv eps
-                                            (sorted_registry sv)
+                                   then let n0 =
+                                          match args with
+                                          | [] -> S O
+                                          | _ :: l ->
+                                            (match l with
+                                             | [] -> S O
+                                             | r :: l0 ->
+                                               (match l0 with
+                                                | [] ->
+                                                  (match p_nat r with
+                                                   | Some k -> S (N.to_nat k)
+                                                   | None -> S O)
+                                                | _ :: _ -> S O))
                                         in
-                                        let (p0, posts) = p in
-                                        let (sv1, eps1) = p0 in
+                                        let (p, posts) = push_rounds n0 sv eps
+                                        in
+                                        let (sv1, eps1) = p in
                                         let subs =
                                           map (fun e ->
                                             show_sub_name (fst e))
@@ -4447,10 +4484,11 @@ let rec run_lines sv seen acks bg eps = function
                                             (r_num (len_N groups)) :: []))
                                             (flat_map (fun s ->
                                               let ids =
-                                                isort N.ltb
-                                                  (map (fun x ->
-                                                    (fst (snd x)).l_msg.m_id)
-                                                    (per s))
+                                                dedup_sorted
+                                                  (isort N.ltb
+                                                    (map (fun x ->
+                                                      (fst (snd x)).l_msg.m_id)
+                                                      (per s)))
                                               in
                                               app
                                                 ((r_str s) :: ((r_num
